@@ -26,11 +26,11 @@ assert src.count(needle2) == 1
 src = src.replace(needle2, "\t\t\t_ = closer\n")
 src += "\n// VerifFatalExit is what Logger.Fatal panics with in the verif in-process worker build.\ntype VerifFatalExit struct{}\n"
 src += "\nvar _ = os.Exit\n"
-pz = f"{root}/.build/zerolog_log.go"
+pz = os.environ["VERIF_BUILD"] + "/zerolog_log.go"
 open(pz, "w").write(src)
 rep[zl] = pz
 if sched:
-    sd = f"{root}/.build/sched"
+    sd = os.environ["VERIF_BUILD"] + "/sched"
     for f in sorted(glob.glob(f"{sd}/**/*.go", recursive=True)):
         rel = os.path.relpath(f, sd)
         rep[f"{repo}/{rel}"] = f
